@@ -206,7 +206,8 @@ class World:
             if junk:
                 self.junk.append([object() for _ in range((junk * (i + 3)) % 11)])
             kind = spec["kind"]
-            if kind == "flag" and self.scenario.get("share_conditions"):
+            if kind == "flag" and self.scenario.get("share_conditions") \
+                    and not self.scenario.get("share_time_only"):
                 # module-level flags used by several runs of one history
                 obj = SHARED_CONDITIONS.get(("flag", name))
                 if obj is None:
